@@ -2,7 +2,7 @@
 # usage: try_mutant.sh <worktree> <diff> <demo> <check ids...>   (runs quick checks against the patched worktree)
 WT=$1; DIFF=$2; DEMO=$3; shift 3
 cd $WT || exit 2
-git checkout -q --detach main 2>/dev/null
+git checkout -q --detach main 2>/dev/null; git clean -fdq -e "mutant*.diff" -e "demo*.py"
 git checkout -q -- . 
 if [ -n "$DEMO" ] && [ -f "$DEMO" ]; then echo "demo clean: $(/venv/bin/python $DEMO 2>&1 | tail -1 | cut -c1-100) (exit $?)"; fi
 git apply $DIFF || { echo "PATCH DOES NOT APPLY"; exit 2; }
